@@ -904,6 +904,9 @@ func (db *DBStore) Header(id types.BlockID) (bh types.BlockHeader, exists bool) 
 }
 
 func (db *DBStore) shouldFlush() bool {
+	if verifForceFlush(db) {
+		return true
+	}
 	// NOTE: these values were chosen empirically and should constitute a
 	// sensible default; if necessary, we can make them configurable
 	const flushSizeThreshold = 100e6
